@@ -566,7 +566,9 @@ int runC03(int argc, char **argv)
                     }
                 } else {
                     QMessageLogContext ctx(file, i, func, cat);
-                    LogMessage m(type, ctx, QString::fromUtf8(text));
+                    QString qtext = QString::fromUtf8(text);
+                    if (r % 6 == 0) qtext = qtext.left(8) + QChar(0) + qtext.mid(8) + QChar(0); // embedded NUL characters are text too
+                    LogMessage m(type, ctx, qtext);
                     if (r % 3 == 0) m.setFormattedMessage(QStringLiteral("F<") + QString::fromUtf8(text) + QLatin1Char('>'));
                     if (r % 5 == 0) m.setFormattedMessage(QStringLiteral("")); // empty but formatted
                     m.setAttribute(QStringLiteral("k"), r);
@@ -576,8 +578,13 @@ int runC03(int argc, char **argv)
                 const long long tr = ticket();
                 const qint64 after = QDateTime::currentMSecsSinceEpoch();
                 // what the producer knows about its message, recorded before the buffers are destroyed
+                QByteArray sentText(text);
+                if (target != "logger" && r % 6 == 0) {
+                    QString q = QString::fromUtf8(text);
+                    sentText = (q.left(8) + QChar(0) + q.mid(8) + QChar(0)).toUtf8();
+                }
                 rec('P', id, tc, tr, (long long)(quintptr)QThread::currentThreadId(),
-                    std::to_string(int(type)) + " " + hexOf(QByteArray(text)) + " " + hexC(file) + " " + std::to_string(i) + " " + hexC(func) + " "
+                    std::to_string(int(type)) + " " + hexOf(sentText) + " " + hexC(file) + " " + std::to_string(i) + " " + hexC(func) + " "
                             + hexC(cat) + " " + std::to_string(before) + " " + std::to_string(after));
                 scrub(file);
                 scrub(func);
